@@ -1,5 +1,5 @@
 SPECIFICATION Spec
-CONSTANTS MaxOps = 8  MaxFire = 4  MaxPkt = 3  MaxRd = 3  MaxWr = 2  HMin = 5000  HMax = 5001  Mut = "none"
+CONSTANTS MaxOps = 7  MaxFire = 4  MaxPkt = 3  MaxRd = 3  MaxWr = 2  HMin = 5000  HMax = 5001  Mut = "none"
   Items <- ItemsDef  PortU <- PortUDef
 INVARIANT NoViolation
 VIEW View
